@@ -29,9 +29,9 @@ Theorem C15_chunking_two : forall cfg fuel st t1 t2 st1 l1 st2 l2, inv st -> t1 
 Proof. exact chunking_two. Qed.
 Print Assumptions C15_chunking_two.
 
-(* run_next_event is one iteration of the same loop *)
+(* run_next_event (when the user callable does not raise) is one iteration of the same loop *)
 Theorem C15_run_next_is_one_iteration : forall cfg st st1 l1 n2 t2 st2 l2, inv st ->
-  run_next cfg st = (st1, l1) ->
+  run_next cfg st = (st1, l1) -> has_raise l1 = false ->
   (forall e rest, pop_event (s_events st) = Some (e, rest) -> e_time e <= t2) ->
   run_loop cfg n2 t2 st1 = (st2, l2, true) ->
   run_loop cfg (S n2) t2 st = (st2, l1 ++ l2, true).
